@@ -105,11 +105,11 @@ theorem C17_atomic (s : St) (t : Tx) :
 
 /-- The same for a whole commit (blocks, metadata, `Commit`): if the process dies anywhere on
     the way leveldb is `L0`, `L1` or `L2`, where the transaction of `L2` is exactly the one
-    `writePendingAndCommit` assembled (`finalTx`: the user's metadata puts, one index row per
+    `writePendingAndCommit` assembled (`finalTx`: the user's metadata puts and deletes, one index row per
     block, and the write-cursor row). -/
-theorem C17_atomic_commit (crc : List UInt8 → Nat) (s : St) (blocks kvs : List (List UInt8 × List UInt8)) :
-    let t0 : Tx := kvs.foldl (fun t e => t.putKey (ElaVerif.Ffldb.bucketizedKey ElaVerif.Ffldb.metaID e.1) e.2)
-      { writable := true, snap := s.db.snapshot }
+theorem C17_atomic_commit (crc : List UInt8 → Nat) (s : St) (blocks : List (List UInt8 × List UInt8))
+    (kvs : List (List UInt8 × Option (List UInt8))) :
+    let t0 : Tx := applyKvs { writable := true, snap := s.db.snapshot } kvs
     let wb := writeBlocks crc s.fs t0 blocks
     let T := finalTx crc wb.2.1 (hit wb.1 "commit.afterBlocks").1
     let L0 := s.db.ldb
